@@ -9,6 +9,15 @@ NOTE = ("Trusted base: clang 14 front end + clang::CFG, tools/xzfacts.cc, sa/*.p
         "of the property is NOT decided (see DESIGN.md section 4).")
 
 CLAIMED = {
+ "C05": dict(
+  text="Edge-cut rule on the resume-aware (CFG block x finite state) product graph of every container decoder "
+       "(stream, threaded stream, block, block header, stream header/footer, index, index hash, lzip): after deleting the "
+       "passing edges of the branches that perform each validation the formats demand (magic, all CRC32s, sizes, Index "
+       "hash, Backward Size, header/footer flags, Check, .lz footer) no success exit is reachable from the initial state; "
+       "padding bytes compared on consumption; LZMA_STREAM_END only from terminal states. A deleted or weakened check is "
+       "reported with the success exit it leaves unguarded. Does NOT decide that payload corruption is caught by the Check.",
+  technique="must-pass-through (edge cut) on a finite-domain path-sensitive product graph with resume edges; interprocedural return-code sets",
+  ref="4/C05"),
  "C06": dict(
   text="Static necessary conditions of slicing independence, decided on every path of the CFG: (RESUME) every local of "
        "every resumable coder function that can carry a value across a suspension has a restore/save pair with coder "
